@@ -227,6 +227,24 @@ CHECKS['C13'] = dict(
     ],
 )
 
+FAULT_LD = ['-Wl,--wrap=posix_memalign', '-Wl,--wrap=free', '-Wl,--wrap=mmap', '-Wl,--wrap=munmap']
+CHECKS['C15'] = dict(
+    level='fault_enumeration',
+    rule='enumerated completely: creating call in {randomx_alloc_cache, randomx_alloc_dataset, randomx_create_vm} x every supported flag combination (cache: JIT x LARGE_PAGES; dataset: LARGE_PAGES; VM: '
+         '{interpreter, JIT, JIT+SECURE} x HARD_AES x FULL_MEM x LARGE_PAGES x V2) x huge-page behaviour {available (simulated), unavailable}; the fault-free run counts the N requests the call issues '
+         '(aligned allocation, operator new from library code, page mapping, large-page mapping), then for k = 1..N exactly the k-th request fails the way the real facility fails, in a child process per plan. '
+         'Oracle: result NULL, live heap blocks / heap bytes / mapped bytes == before the call, no abnormal termination, then the same call fault-free succeeds, the object works (digest == fault-free digest) and '
+         'create/use/release returns to the initial live set (incl. munmap length rule for huge pages). Generated: sequences of up to 12 plans with generated fault indices and repeats (multi-fault histories, '
+         'create/use/destroy cycles): live set at the end == start. Non-trivial: plan failing a request other than the first (partially constructed object); cycle with >= 2 faults',
+    assumptions=COMMON_ASSUME + ['the exception object allocation of libstdc++ (__cxa_allocate_exception, plain malloc) is not interposed; every operator new, posix_memalign and mmap during the call is',
+                                 'huge pages are simulated (flag stripped, kernel munmap rule applied as measured on this kernel)'],
+    exhaustive={'quick': True, 'thorough': True},
+    stages=[
+        dict(name='faults', harness=H('c15', ['harness/c15_lifecycle.cpp'], ldflags=FAULT_LD),
+             plan={'quick': 'faults=all,cycles=160:40', 'thorough': 'faults=all,cycles=20000:100'}),
+    ],
+)
+
 C02_AUX = os.path.join(os.path.dirname(os.path.abspath(__file__)), 'build', 'run', 'c02-digests')
 
 
